@@ -983,7 +983,8 @@ func (p *asyncProducer) retryBatch(topic string, partition int32, pSet *partitio
 	produceSet.bufferCount += len(pSet.msgs)
 	for _, msg := range pSet.msgs {
 		if msg.retries >= p.conf.Producer.Retry.Max {
-			p.returnError(msg, kerr)
+			// the batch is resent as a whole or not at all: every message gets the outcome
+			p.returnErrors(pSet.msgs, kerr)
 			return
 		}
 		msg.retries++
